@@ -537,6 +537,8 @@ def _r8(run, mods):
     if fn is None:
         raise AnalysisError('anchored function vanished: encode_transition')
     run.subject('C06-R8')
+    from ..inline import flatten, module_lookup
+    fn = flatten(fn, module_lookup(mi))
     tr = S.Tracer(lambda n, m: None)
     ret = tr.trace(fn, mi)
     p = params_of(fn)[0]
